@@ -183,6 +183,32 @@ fuzz_target!(|data: &[u8]| {
     rt.block_on(async {
         let Ok(a) = Archive::open_path(&arch).await else { return };
         let _ = a.list_band_ids().await;
+        // `conserve versions` with every detail column (src/show.rs): opens each band,
+        // converts head and tail times, walks the stitched index for the tree size
+        {
+            use std::os::fd::AsRawFd;
+            use std::sync::Once;
+            static QUIET: Once = Once::new();
+            QUIET.call_once(|| {
+                unsafe extern "C" {
+                    fn dup2(a: i32, b: i32) -> i32;
+                }
+                if let Ok(f) = std::fs::OpenOptions::new().write(true).open("/dev/null") {
+                    unsafe { dup2(f.as_raw_fd(), 1) };
+                }
+            });
+            for newest_first in [false, true] {
+                let options = conserve::ShowVersionsOptions {
+                    newest_first,
+                    tree_size: true,
+                    start_time: true,
+                    backup_duration: true,
+                    utc: true,
+                };
+                let m = Arc::new(conserve::termui::TermUiMonitor::new(false));
+                let _ = conserve::show_versions(&a, &options, m).await;
+            }
+        }
         for band in 0..2u32 {
             let monitor = TestMonitor::arc();
             if let Ok(mut st) = a
